@@ -1,3 +1,5 @@
+\* WorkTreeConf, repaired variant; the check generates the same configuration with the variant
+\* (FixDelete / FixPatch) that the code under test implements and dumps the state graph for replay.
 SPECIFICATION Spec
 CONSTANTS
   TreeSet <- TreesTiny
@@ -9,5 +11,5 @@ CONSTANTS
 INVARIANT TypeOK
 INVARIANT Confined
 INVARIANT UnsafeRefused
-CHECK_DEADLOCK FALSE
 CONSTRAINT Modelled
+CHECK_DEADLOCK FALSE
